@@ -773,7 +773,11 @@ EvalTransition(r) ==
 \* ---------------------------------------------------------------- kind "roundtrip": C14, C15
 \* text0 -parse-> tree1 -print-> text2 -parse-> tree2 -print-> text3:  tree2 = tree1 and text3 = text2
 EvalRoundtrip(r) ==
-  IF r.stage = "parse1" THEN <<Skip(r, Prop \o ".reparse_gives_the_same_tree", "the input text is not accepted")>>
+  IF Prop = "C02"    \* entries of specifications / user guides printed by the reference grammar: role, direction, name, sort, arity
+  THEN <<Out(r, "C02.text_parses_to_reference_tree",
+             IF r.stage # "parse1" /\ r.tree1 = r.exp THEN OkT
+             ELSE BadT([note |-> "the parser reads the entry differently from the grammar (role, direction, name, sort, arity) or rejects it", reference |-> r.exp]), "")>>
+  ELSE IF r.stage = "parse1" THEN <<Skip(r, Prop \o ".reparse_gives_the_same_tree", "the input text is not accepted")>>
   ELSE IF r.stage # "done"
        THEN <<Out(r, Prop \o ".printed_text_is_accepted",
                   BadT([note |-> "anthem does not accept the text it printed itself (" \o r.stage \o ")", error |-> r.problem, got |-> r.text2]), "")>>
